@@ -44,6 +44,10 @@ pub struct Cfg {
     /// C17: despawn while pool jobs may still be running (gates are opened first, so they all finish)
     #[serde(default)]
     pub despawn_without_quiescence: bool,
+    /// handles released by caller threads are dropped while the caller is unwinding from a panic of its own
+    /// (Desync::drop then takes its non-panicking path)
+    #[serde(default)]
+    pub unwinding_drops: bool,
 }
 
 #[derive(Clone, Copy, Debug, PartialEq, Eq, Serialize, Deserialize)]
@@ -81,6 +85,8 @@ pub enum Step {
     /// future bodies only: create a future_desync on another object and await it
     AwaitFutDesync { o: u8, body: Vec<Step>, id: OpId },
     Panic,
+    /// future bodies only: wake the own waker during the poll and return Pending once (a yield-style future)
+    SelfWake,
 }
 
 #[derive(Clone, Debug, PartialEq, Serialize, Deserialize)]
@@ -261,6 +267,7 @@ fn fmt_steps(steps: &[Step]) -> String {
             Step::OpenGate { g } => format!("open(g{})", g),
             Step::BlockOnGate { g } => format!("block_on(g{})", g),
             Step::AwaitGate { g } => format!("await(g{})", g),
+            Step::SelfWake => "self-wake".to_string(),
             Step::AwaitFutSync { o, body, id } => format!("await fsync#{}(o{}){{{}}}", id, o, fmt_steps(body)),
             Step::AwaitFutDesync { o, body, id } => format!("await fdesync#{}(o{}){{{}}}", id, o, fmt_steps(body)),
             Step::Panic => "PANIC".to_string(),
